@@ -33,14 +33,7 @@ theorem ht_to_bt_never_overflows (ys : Int) (h : Py.htTdInRange ys) : btOfHt ys 
 /-! ### round trips -/
 
 /-- bintime → hightime → bintime is the identity -/
-theorem bt_ht_bt (t ys : Int) (h : htOfBt t = .ok ys) : btTicksOfHt ys = t := by
-  rw [bt_to_ht] at h; split at h
-  · injection h with h; subst h
-    have hb := ht_to_bt_nearest (t * Y / T)
-    unfold T Y at *
-    generalize btTicksOfHt _ = b at *
-    omega
-  · cases h
+theorem bt_ht_bt (t ys : Int) (h : htOfBt t = .ok ys) : btTicksOfHt ys = t := Proofs.Conv.bt_ht_bt t ys h
 
 /-- datetime → hightime → datetime is the identity -/
 theorem dt_ht_dt (us : Int) (h : Py.dtTdInRange us) :
@@ -173,23 +166,7 @@ theorem ht_to_btdt_nearest (q : Int) (h : htAbsInRange q) :
   exact ⟨_, ht_to_bt_in_range _ hr, Proofs.Conv.ht_to_bt_nearest _⟩
 
 /-- bintime → hightime → bintime is the identity on absolute times -/
-theorem btdt_ht_btdt (t q : Int) (h : htOfBtDt t = .ok q) : btDtOfHt q = .ok t := by
-  unfold htOfBtDt at h
-  cases hd : htOfBt t with
-  | error e => rw [hd] at h; cases h
-  | ok y =>
-    rw [hd] at h; simp only [Proofs.bind_ok] at h
-    split at h
-    · injection h with h; subst h
-      have hb := bt_ht_bt t y hd
-      have hy : Py.htTdInRange y := by
-        rw [bt_to_ht] at hd; split at hd
-        · rename_i hr; injection hd with hd; subst hd; exact hr
-        · cases hd
-      unfold btDtOfHt
-      have e : HT_EPOCH + y - HT_EPOCH = y := by omega
-      rw [e, ht_to_bt_in_range y hy, hb]
-    · cases h
+theorem btdt_ht_btdt (t q : Int) (h : htOfBtDt t = .ok q) : btDtOfHt q = .ok t := Proofs.Conv.btdt_ht_btdt t q h
 
 /-- datetime → hightime → datetime is the identity; hightime → datetime truncates below 1 µs -/
 theorem dt_ht_dt_abs (p : Int) : dtAbsOfHt (htAbsOfDt p) = p := by unfold dtAbsOfHt htAbsOfDt; omega
